@@ -33,6 +33,51 @@ theorem addDefs_some : ∀ (ds : List (Text × Schema)) (defs defs' : Defs),
     · have := ih _ _ h
       simp [this]
 
+/-- once an error is recorded the outcome is never `ok (_, false)` -/
+theorem collect_true_ne (inProps : List Text) : ∀ (ts : List OurType) (acc : Defs) (defs : Defs),
+    collect inProps ts acc true ≠ .ok (defs, false) := by
+  intro ts
+  induction ts with
+  | nil => intro acc defs h; simp [collect] at h
+  | cons t ts ih2 =>
+    intro acc defs h
+    simp only [collect] at h
+    cases ht2 : typeDefinitions inProps t with
+    | error c =>
+      simp only [ht2] at h
+      split at h
+      · exact ih2 _ _ h
+      · cases h
+    | ok ds2 =>
+      simp only [ht2] at h
+      cases ha2 : addDefs acc ds2 with
+      | none => simp only [ha2] at h; exact ih2 _ _ h
+      | some d2 => simp only [ha2] at h; exact ih2 _ _ h
+
+/-- a successful `collect` means every type's definitions were produced -/
+theorem collect_all_ok (inProps : List Text) : ∀ (ts : List OurType) (acc : Defs) (dup : Bool) (defs : Defs),
+    collect inProps ts acc dup = .ok (defs, false) →
+      ∀ t ∈ ts, ∃ ds, typeDefinitions inProps t = .ok ds := by
+  intro ts
+  induction ts with
+  | nil => intro _ _ _ _ t ht; cases ht
+  | cons t ts ih =>
+    intro acc dup defs h t' ht'
+    simp only [collect] at h
+    cases htd : typeDefinitions inProps t with
+    | error c =>
+      simp only [htd] at h
+      split at h
+      · exact absurd h (collect_true_ne inProps _ _ _)
+      · cases h
+    | ok ds =>
+      simp only [htd] at h
+      rcases List.mem_cons.mp ht' with rfl | ht''
+      · exact ⟨ds, htd⟩
+      · cases ha : addDefs acc ds with
+        | none => simp only [ha] at h; exact absurd h (collect_true_ne inProps _ _ _)
+        | some a' => simp only [ha] at h; exact ih _ _ _ h t' ht''
+
 theorem collect_spec (inProps : List Text) : ∀ (ts : List OurType) (acc : Defs) (dup : Bool) (defs : Defs),
     collect inProps ts acc dup = .ok (defs, false) →
       defs.map (·.1) = acc.map (·.1) ++ ts.flatMap (typeKeys inProps) ∧
@@ -48,31 +93,18 @@ theorem collect_spec (inProps : List Text) : ∀ (ts : List OurType) (acc : Defs
     intro acc dup defs h
     simp only [collect] at h
     cases ht : typeDefinitions inProps t with
-    | error c => simp [ht] at h
+    | error c =>
+      simp only [ht] at h
+      split at h
+      · exact absurd h (collect_true_ne inProps _ _ _)
+      · cases h
     | ok ds =>
       simp only [ht] at h
       obtain ⟨hk, hr⟩ := typeDefinitions_spec ht
       cases ha : addDefs acc ds with
       | none =>
         simp only [ha] at h
-        -- an error was recorded: the final flag is `true`
-        exfalso
-        have : ∀ (ts : List OurType) (acc : Defs) (defs : Defs),
-            collect inProps ts acc true ≠ .ok (defs, false) := by
-          intro ts
-          induction ts with
-          | nil => intro acc defs h; simp [collect] at h
-          | cons t ts ih2 =>
-            intro acc defs h
-            simp only [collect] at h
-            cases ht2 : typeDefinitions inProps t with
-            | error c => simp [ht2] at h
-            | ok ds2 =>
-              simp only [ht2] at h
-              cases ha2 : addDefs acc ds2 with
-              | none => simp only [ha2] at h; exact ih2 _ _ h
-              | some d2 => simp only [ha2] at h; exact ih2 _ _ h
-        exact this _ _ _ h
+        exact absurd h (collect_true_ne inProps _ _ _)
       | some acc' =>
         simp only [ha] at h
         have hacc := addDefs_some _ _ _ ha
